@@ -69,10 +69,14 @@ func genC03(t *rapid.T) CaseC03 {
 var c03Rec *vkit.Recorder
 var c03Progress int64
 
+// hookTrace follows every task from submit to receive.  Tasks are identified by address, which the
+// allocator may reuse once a task has been received, so the state is "live" per (manager, address).
 type hookTrace struct {
 	mu        sync.Mutex
-	submitted map[uintptr]map[uintptr]int // tm -> task -> count
-	received  map[uintptr]map[uintptr]int
+	live      map[uintptr]map[uintptr]bool // tm -> task -> submitted and not yet received
+	submitted int
+	received  int
+	bad       string
 	maxOv     int
 }
 
@@ -104,7 +108,7 @@ func checkC03(c CaseC03) (*vkit.Failure, vkit.Meta) {
 				tr         *hookTrace
 			}
 			runOnce := func(release []int, delays map[string]int) result {
-				tr := &hookTrace{submitted: map[uintptr]map[uintptr]int{}, received: map[uintptr]map[uintptr]int{}}
+				tr := &hookTrace{live: map[uintptr]map[uintptr]bool{}}
 				compose.SetVerifHook(func(point, node string, tm, task uintptr, ov int) {
 					atomic.AddInt64(&c03Progress, 1)
 					tr.mu.Lock()
@@ -113,15 +117,20 @@ func checkC03(c CaseC03) (*vkit.Failure, vkit.Meta) {
 					}
 					switch point {
 					case "submit.async", "submit.sync":
-						if tr.submitted[tm] == nil {
-							tr.submitted[tm] = map[uintptr]int{}
+						if tr.live[tm] == nil {
+							tr.live[tm] = map[uintptr]bool{}
 						}
-						tr.submitted[tm][task]++
+						if tr.live[tm][task] && tr.bad == "" {
+							tr.bad = "task of node " + node + " submitted again before it was received"
+						}
+						tr.live[tm][task] = true
+						tr.submitted++
 					case "wait.received":
-						if tr.received[tm] == nil {
-							tr.received[tm] = map[uintptr]int{}
+						if !tr.live[tm][task] && tr.bad == "" {
+							tr.bad = "task of node " + node + " received although it is not outstanding (received twice, or never submitted)"
 						}
-						tr.received[tm][task]++
+						delete(tr.live[tm], task)
+						tr.received++
 					}
 					tr.mu.Unlock()
 					for i := 0; i < delays[point]; i++ {
@@ -185,16 +194,21 @@ func checkC03(c CaseC03) (*vkit.Failure, vkit.Meta) {
 					}
 				}
 				rs.tr.mu.Lock()
-				for tm, sub := range rs.tr.submitted {
-					for task, n := range sub {
-						rc := rs.tr.received[tm][task]
-						if n != 1 || rc > 1 || (rc != 1 && len(ref.OptionalNodes) == 0) {
-							rs.tr.mu.Unlock()
-							return &vkit.Failure{Kind: "task-not-collected-once", Sig: "task-not-collected-once", Msg: fmt.Sprintf("%s: a task was submitted %d times and received %d times by its task manager (every node of this graph leads to END: %v)", name, n, rc, len(ref.OptionalNodes) == 0)}
-						}
-					}
+				bad, nlive, sub, rec := rs.tr.bad, 0, rs.tr.submitted, rs.tr.received
+				for _, l := range rs.tr.live {
+					nlive += len(l)
 				}
 				rs.tr.mu.Unlock()
+				if len(ref.OptionalNodes) > 0 {
+					// nodes that do not lead to END may outlive the run (and the next run's hook): traces are not judged
+					continue
+				}
+				if bad != "" {
+					return &vkit.Failure{Kind: "task-not-collected-once", Sig: "task-not-collected-once", Msg: name + ": " + bad}
+				}
+				if nlive > 0 {
+					return &vkit.Failure{Kind: "task-not-collected-once", Sig: "task-not-collected", Msg: fmt.Sprintf("%s: %d tasks were submitted, %d received; %d never collected although every node of this graph leads to END", name, sub, rec, nlive)}
+				}
 			}
 			if b.overlapped >= 2 {
 				m.Labels = append(m.Labels, "bodies-overlapped")
